@@ -164,6 +164,11 @@ package queue
 //@   prop C05, C03, C04
 //@   opt old=cs
 //@   requires t != nil
+// C03: appending does not wait for anybody (no blocking select, channel operation or sleep; taking
+// the queue's own mutex is not a wait): the events handler appends while it holds the lock of the
+// whole queue set, so an append that waits for one queue's worker stalls every queue.
+//@   requires [assumed:entered-without-waiting] ctxfresh()
+//@   ensures [does-not-wait @C03] ctxfresh()
 //@   modifies q.items, q.measureActionFn, allelems(task.Task), nMut, nAddLast, addLastTask, addLastQueue
 //@   ghostset nAddLast := nAddLast + 1
 //@   ghostset addLastTask[nAddLast] := t
